@@ -182,7 +182,7 @@ def dom_for(case):
     return d
 
 
-def check_case(case, tier, seed):
+def check_case(case, tier, seed, PID=PID, oracle_mod='oracles.c01'):
     gc, cv, ga = _mods()
     ell_kind, prj_kind, zone_kind, argkind = case
     tag = 'ell=%s prj=%s zone=%s args=%s' % tuple(str(c) for c in case)
@@ -199,7 +199,7 @@ def check_case(case, tier, seed):
                 pass
             # inside the stated domain nothing may raise: a feasible raise path is a candidate violation
             out.append(ob.decide_goal('O6', '%s: no exception inside the domain (%s)' % (tag, type(p.value).__name__),
-                                      ob.path_conds(p), z3.BoolVal(False), pid=PID, oracle='oracles.c01:forward_env',
+                                      ob.path_conds(p), z3.BoolVal(False), pid=PID, oracle=oracle_mod + ':forward_env',
                                       args_from_model=lambda env: {'env': env, 'case': list(case)}, key='O6:raises',
                                       domain=dom_for(case), num_conds=p.assumptions + p.pc, timeout_s=20))
             continue
@@ -210,14 +210,14 @@ def check_case(case, tier, seed):
         isg_auto = (prj_kind == 'isg' and zone_kind == 'auto')     # E/N of ISG are decided on the explicit-zone cases
         for got, refv, nm in (() if isg_auto else ((o[2], d['E'], 'easting'), (o[3], d['N'], 'northing'))):
             out.append(ob.decide_close('O2', '%s: %s = Karney-Krueger reference (4-decimal rounding) [%s]' % (tag, nm, o[0]), p, got, refv,
-                                       HALF4, pid=PID, key='O2:forward', oracle='oracles.c01:forward_env', domain=dom_for(case),
+                                       HALF4, pid=PID, key='O2:forward', oracle=oracle_mod + ':forward_env', domain=dom_for(case),
                                        make_args=mk, extra_conds=extra, timeout_s=QT[tier], paths=len(paths),
                                        extra_points=TC.stress_points()))
         # hemisphere label / false northing follow the sign of y = A*xi
         ygoal = (toz(d['y']) < 0) if o[0] == 'South' else (toz(d['y']) >= 0)
         if not isg_auto:
             out.append(ob.decide_goal('O4', '%s: label %s iff projected y %s 0' % (tag, o[0], '<' if o[0] == 'South' else '>='),
-                         ob.path_conds(p) + extra, ygoal, pid=PID, oracle='oracles.c01:forward_env', args_from_model=mk,
+                         ob.path_conds(p) + extra, ygoal, pid=PID, oracle=oracle_mod + ':forward_env', args_from_model=mk,
                          key='O4:hemisphere', domain=dom_for(case), num_conds=p.assumptions + p.pc, timeout_s=QT[tier], extra_points=TC.stress_points()))
         # zone
         FE, FN, k0, zw, cm1 = inp['prj']
@@ -229,11 +229,11 @@ def check_case(case, tier, seed):
                 goal = z3.And(zt >= 1, zt <= 60, ob.zabs(toz(inp['lon']) - toz(d['cm'])) <= toz(zw) / 2)
             out.append(ob.decide_goal('O3', '%s: automatic zone%s has its central meridian within half a zone width' % (
                 tag, ' is in 1..60 and'), ob.path_conds(p) + extra, goal, pid=PID,
-                oracle='oracles.c01:forward_env', args_from_model=mk, key='O3:zone', domain=dom_for(case),
+                oracle=oracle_mod + ':forward_env', args_from_model=mk, key='O3:zone', domain=dom_for(case),
                 num_conds=p.assumptions + p.pc, timeout_s=QT[tier], extra_points=TC.stress_points()))
         else:
             out.append(ob.decide_close('O3', '%s: explicit zone returned unchanged' % tag, p, o[1], inp['zone_in'], 0, pid=PID,
-                                       key='O3:zone', oracle='oracles.c01:forward_env', domain=dom_for(case), make_args=mk))
+                                       key='O3:zone', oracle=oracle_mod + ':forward_env', domain=dom_for(case), make_args=mk))
     if nret == 0:
         out.append(ob.res('O2', tag, 'inconclusive', [], 'no returning path (vacuous harness)'))
     return out
